@@ -21,6 +21,11 @@ DATES = [datetime.datetime(2020, 1, 1, tzinfo=UTC), datetime.datetime(2021, 2, 2
          datetime.datetime(1999, 12, 31, 12, 0, 0, tzinfo=tz(330)), None,
          datetime.datetime(2022, 3, 4, 0, 10, 0, tzinfo=tz(-30)), datetime.datetime(2022, 3, 4, 23, 50, 0, 500000, tzinfo=tz(-44)),
          datetime.datetime(2023, 7, 1, 0, 0, 0, tzinfo=tz(45)), datetime.datetime(2023, 7, 1, 6, 0, 0, tzinfo=tz(-1))]
+# a zone with daylight saving: the hour that occurs twice when the clocks go back (second occurrence: fold=1), and the last
+# half millisecond before a change of offset
+from contracts.types_dt import DstTz
+DATES += [datetime.datetime(2021, 11, 7, 1, 30, 0, tzinfo=DstTz(), fold=1), datetime.datetime(2021, 11, 7, 1, 30, 0, tzinfo=DstTz(), fold=0),
+          datetime.datetime(2021, 11, 7, 1, 59, 59, 999600, tzinfo=DstTz(), fold=0), datetime.datetime(2021, 3, 14, 1, 59, 59, 999600, tzinfo=DstTz())]
 
 
 def mk_request(kind, rng, i):
